@@ -1,0 +1,311 @@
+//go:build verif
+
+package server
+
+import (
+	"fmt"
+	"net"
+	"sync/atomic"
+
+	"github.com/tidwall/buntdb"
+	"github.com/tidwall/tile38/internal/collection"
+	"github.com/tidwall/tile38/internal/field"
+	"github.com/tidwall/tile38/internal/object"
+)
+
+// Verification hooks, compiled only with the "verif" build tag.
+//
+// VerifHook, when set, is called at every instrumentation point with the
+// server, the point name and point specific arguments. The hook may block
+// (schedule gate) or kill the process (crash point). It is installed by the
+// verification harness before any server is started.
+var VerifHook func(s *Server, point string, args ...interface{})
+
+func verifPoint(s *Server, point string, args ...interface{}) {
+	if h := VerifHook; h != nil {
+		h(s, point, args...)
+	}
+}
+
+// VerifCmd is the linearization event of one client command. It is emitted
+// while the lock chosen by handleInputCommand is still held.
+type VerifCmd struct {
+	Seq      int64 // per process sequence number, taken under the lock
+	ClientID int
+	Args     []string
+	Reply    []byte // bytes appended to the client's output buffer
+	Write    bool   // command belongs to the logged write class
+	JSON     bool   // output type of the reply
+	AofSize  int    // s.aofsz after the command
+	Port     int
+}
+
+var verifSeq atomic.Int64
+
+func verifCmdBegin(s *Server, client *Client, msg *Message) int {
+	if VerifHook == nil || client == nil {
+		return 0
+	}
+	verifPoint(s, "cmd.begin", client.id, msg.Args)
+	return len(client.out)
+}
+
+func verifCmdDone(s *Server, client *Client, msg *Message, write *bool, begin int) {
+	if VerifHook == nil || client == nil {
+		return
+	}
+	ev := VerifCmd{
+		Seq:      verifSeq.Add(1),
+		ClientID: client.id,
+		Args:     append([]string(nil), msg.Args...),
+		Write:    *write,
+		JSON:     msg.OutputType == JSON,
+		AofSize:  s.aofsz,
+		Port:     s.port,
+	}
+	if begin <= len(client.out) {
+		ev.Reply = append([]byte(nil), client.out[begin:]...)
+	}
+	verifPoint(s, "cmd.done", ev)
+}
+
+// verifConn passes every socket write through the hook before it happens.
+type verifConn struct {
+	net.Conn
+	s  *Server
+	id int
+}
+
+func (c *verifConn) Write(b []byte) (int, error) {
+	verifPoint(c.s, "sock.write", c.id, len(b))
+	return c.Conn.Write(b)
+}
+
+func verifWrapConn(s *Server, client *Client, conn net.Conn) net.Conn {
+	if VerifHook == nil {
+		return conn
+	}
+	return &verifConn{Conn: conn, s: s, id: client.id}
+}
+
+// VerifPort returns the listening port of the server (identity for hooks).
+func (s *Server) VerifPort() int { return s.port }
+
+// VerifObj is the projection of one stored object.
+type VerifObj struct {
+	Geo     string            `json:"geo"`     // GeoJSON text, or the raw string value
+	Spatial bool              `json:"spatial"` // false for string objects
+	Fields  map[string]string `json:"fields,omitempty"`
+	Ex      bool              `json:"ex"`   // has a deadline
+	ExNano  int64             `json:"exns"` // the deadline (unix nanoseconds) or 0
+}
+
+// VerifHookRec is the projection of one hook or channel.
+type VerifHookRec struct {
+	Key       string            `json:"key"`
+	Endpoints []string          `json:"endpoints"`
+	Channel   bool              `json:"channel"`
+	Metas     map[string]string `json:"metas,omitempty"`
+	Ex        bool              `json:"ex"`
+	Args      []string          `json:"args"`
+}
+
+// VerifState is the projection of the whole dataset.
+type VerifState struct {
+	Cols  map[string]map[string]VerifObj `json:"cols"`
+	Hooks map[string]VerifHookRec        `json:"hooks"`
+	AofSz int                            `json:"aofsz"`
+}
+
+// VerifDump returns the projection of the dataset. With lock=true the shared
+// lock is taken; use lock=false only from inside a hook that runs under it.
+func (s *Server) VerifDump(lock bool) VerifState {
+	if lock {
+		s.mu.RLock()
+		defer s.mu.RUnlock()
+	}
+	st := VerifState{
+		Cols:  map[string]map[string]VerifObj{},
+		Hooks: map[string]VerifHookRec{},
+		AofSz: s.aofsz,
+	}
+	s.cols.Scan(func(key string, col *collection.Collection) bool {
+		m := map[string]VerifObj{}
+		col.Scan(false, nil, nil, func(o *object.Object) bool {
+			vo := VerifObj{
+				Geo:     o.String(),
+				Spatial: o.IsSpatial(),
+				Ex:      o.Expires() != 0,
+				ExNano:  o.Expires(),
+			}
+			o.Fields().Scan(func(f field.Field) bool {
+				if vo.Fields == nil {
+					vo.Fields = map[string]string{}
+				}
+				vo.Fields[f.Name()] = f.Value().Data()
+				return true
+			})
+			m[o.ID()] = vo
+			return true
+		})
+		st.Cols[key] = m
+		return true
+	})
+	s.hooks.Ascend(nil, func(v interface{}) bool {
+		h := v.(*Hook)
+		r := VerifHookRec{
+			Key:       h.Key,
+			Endpoints: append([]string(nil), h.Endpoints...),
+			Channel:   h.channel,
+			Ex:        !h.expires.IsZero(),
+		}
+		if h.Message != nil {
+			r.Args = append([]string(nil), h.Message.Args...)
+		}
+		for _, m := range h.Metas {
+			if r.Metas == nil {
+				r.Metas = map[string]string{}
+			}
+			r.Metas[m.Name] = m.Value
+		}
+		st.Hooks[h.Name] = r
+		return true
+	})
+	return st
+}
+
+// VerifAudit checks the internal bookkeeping of every collection, the hook
+// registries and the group maps against the primary data. It returns one
+// line per inconsistency.
+func (s *Server) VerifAudit(lock bool) []string {
+	if lock {
+		s.mu.RLock()
+		defer s.mu.RUnlock()
+	}
+	var errs []string
+	s.cols.Scan(func(key string, col *collection.Collection) bool {
+		for _, e := range col.VerifAudit() {
+			errs = append(errs, "collection "+key+": "+e)
+		}
+		return true
+	})
+	hooks := map[*Hook]bool{}
+	s.hooks.Ascend(nil, func(v interface{}) bool {
+		hooks[v.(*Hook)] = true
+		return true
+	})
+	nout := 0
+	s.hooksOut.Ascend(nil, func(v interface{}) bool {
+		nout++
+		h := v.(*Hook)
+		if !hooks[h] {
+			errs = append(errs, "hooksOut: stale hook "+h.Name)
+		}
+		return true
+	})
+	wantOut, wantTree, wantCross, wantEx := 0, 0, 0, 0
+	for h := range hooks {
+		if h.Fence == nil {
+			continue
+		}
+		if h.Fence.detect == nil || h.Fence.detect["outside"] {
+			wantOut++
+		}
+		if h.Fence.obj != nil {
+			wantTree++
+			if h.Fence.detect["cross"] {
+				wantCross++
+			}
+		}
+		if !h.expires.IsZero() {
+			wantEx++
+		}
+	}
+	if nout != wantOut {
+		errs = append(errs, fmt.Sprintf("hooksOut: %d entries, want %d", nout, wantOut))
+	}
+	ntree := 0
+	s.hookTree.Scan(func(min, max [2]float64, v interface{}) bool {
+		ntree++
+		if !hooks[v.(*Hook)] {
+			errs = append(errs, "hookTree: stale hook "+v.(*Hook).Name)
+		}
+		return true
+	})
+	if ntree != wantTree {
+		errs = append(errs, fmt.Sprintf("hookTree: %d entries, want %d", ntree, wantTree))
+	}
+	ncross := 0
+	s.hookCross.Scan(func(min, max [2]float64, v interface{}) bool {
+		ncross++
+		if !hooks[v.(*Hook)] {
+			errs = append(errs, "hookCross: stale hook "+v.(*Hook).Name)
+		}
+		return true
+	})
+	if ncross != wantCross {
+		errs = append(errs, fmt.Sprintf("hookCross: %d entries, want %d", ncross, wantCross))
+	}
+	nex := 0
+	s.hookExpires.Ascend(nil, func(v interface{}) bool {
+		nex++
+		h := v.(*Hook)
+		cur, _ := s.hooks.Get(&Hook{Name: h.Name}).(*Hook)
+		if cur == nil {
+			errs = append(errs, "hookExpires: stale hook "+h.Name)
+		} else if !cur.expires.Equal(h.expires) {
+			errs = append(errs, "hookExpires: stale deadline for "+h.Name)
+		}
+		return true
+	})
+	if nex != wantEx {
+		errs = append(errs, fmt.Sprintf("hookExpires: %d entries, want %d", nex, wantEx))
+	}
+	// group maps: same items in both trees, each naming an existing hook and
+	// an existing object.
+	ngh, ngo := 0, 0
+	s.groupHooks.Ascend(nil, func(v interface{}) bool {
+		ngh++
+		g := v.(*groupItem)
+		if s.groupObjects.Get(g) == nil {
+			errs = append(errs, "groupHooks: item missing from groupObjects: "+g.hookName+"/"+g.colKey+"/"+g.objID)
+		}
+		if s.hooks.Get(&Hook{Name: g.hookName}) == nil {
+			errs = append(errs, "groups: connection to missing hook "+g.hookName)
+		}
+		col, _ := s.cols.Get(g.colKey)
+		if col == nil || col.Get(g.objID) == nil {
+			errs = append(errs, "groups: connection to missing object "+g.colKey+"/"+g.objID)
+		}
+		return true
+	})
+	s.groupObjects.Ascend(nil, func(v interface{}) bool {
+		ngo++
+		return true
+	})
+	if ngh != ngo {
+		errs = append(errs, fmt.Sprintf("groups: %d hook items, %d object items", ngh, ngo))
+	}
+	return errs
+}
+
+// VerifIdle reports whether no notification work is pending inside the
+// server: the live stack is empty and the webhook queue holds no entries.
+func (s *Server) VerifIdle() bool {
+	s.lcond.L.Lock()
+	n := len(s.lstack)
+	s.lcond.L.Unlock()
+	if n > 0 {
+		return false
+	}
+	pending := 0
+	if s.qdb != nil {
+		s.qdb.View(func(tx *buntdb.Tx) error {
+			return tx.Ascend("hooks", func(k, v string) bool {
+				pending++
+				return false
+			})
+		})
+	}
+	return pending == 0
+}
